@@ -124,6 +124,19 @@ def run(ctx):
             cases.append(f'Un{"En" if lang == "en" else "Ja"} {gcat(k)} {G.gtable(table)} {G.gresult(out)}')
             descr.append(('un', lang, str(k)))
             ctx.case(('un', lang, str(k)))
+        # the loader (depccg/allennlp/utils.py read_params) builds the unary table as a defaultdict(list): looking a category up must not
+        # change the caller's table either
+        from collections import defaultdict
+        dd = defaultdict(list)
+        for k, v in table.items():
+            dd[k].extend(v)
+        before = {k: list(v) for k, v in dd.items()}
+        for x in rng.sample(inv, 40) + list(table)[:5]:
+            G.call(mod.apply_unary_rules, x, dd)
+            if {k: list(v) for k, v in dd.items()} != before:
+                ctx.fail('argument_mutated', f'{lang}: apply_unary_rules({x}, table) changed the caller\'s unary table (a defaultdict, as the loader builds it)',
+                         {'lang': lang, 'x': str(x), 'table_size_before': len(before), 'table_size_after': len(dd)})
+                break
         for x in rng.sample(inv, 40):
             if x not in table:
                 out = G.call(unary, x)
